@@ -304,7 +304,12 @@ func (s *Sim) checkPreControl(v *recView) {
 			}
 			match := selErr == nil && sel.Matches(labels.Set(p.Labels)) && parent == cs.Name
 			if deletingNow {
-				s.violate("C11", "C11.deleting-adoption", "pod-"+map[bool]string{true: "adopt", false: "release"}[adopt], fmt.Sprintf("set %s is being deleted but pod %s was patched (%s)", cs.Name, c.Name, string(c.Patch)))
+				// how the reconcile knew: from its cached set, or only from an uncached read
+				how := "-after-fresh-read"
+				if cs.DeletionTimestamp != nil {
+					how = "-cached-deleting"
+				}
+				s.violate("C11", "C11.deleting-adoption", "pod-"+map[bool]string{true: "adopt", false: "release"}[adopt]+how, fmt.Sprintf("set %s is being deleted but pod %s was patched (%s)", cs.Name, c.Name, string(c.Patch)))
 			}
 			if adopt {
 				s.count("probe.adoption")
@@ -357,7 +362,11 @@ func (s *Sim) checkPreControl(v *recView) {
 				noteRev(c.Out.(*appsv1.ControllerRevision))
 			}
 			if deletingNow {
-				s.violate("C11", "C11.deleting-adoption", "revision-"+c.Verb, fmt.Sprintf("set %s is being deleted but revision %s was written (%s)", cs.Name, c.Name, c.Verb))
+				how := "-after-fresh-read"
+				if cs.DeletionTimestamp != nil {
+					how = "-cached-deleting"
+				}
+				s.violate("C11", "C11.deleting-adoption", "revision-"+c.Verb+how, fmt.Sprintf("set %s is being deleted but revision %s was written (%s)", cs.Name, c.Name, c.Verb))
 			}
 			if c.Verb == "patch" {
 				s.count("probe.revision_adoption")
@@ -903,7 +912,14 @@ func (s *Sim) checkStatusWrites(v *recView) {
 			}
 		}
 		old := set.Status.CurrentRevision
-		if _, known := v.listedN[old]; known && old != "" && st.CurrentRevision != old {
+		known := false
+		if r := v.listedFirst[old]; r != nil && old != "" {
+			// "names an existing revision": one of this set's history (a same-named
+			// revision still owned by a previous incarnation of the set is not)
+			ref := controllerOf(r)
+			known = ref == nil || ref.UID == set.UID
+		}
+		if known && st.CurrentRevision != old {
 			s.count("probe.current_revision_advanced")
 			ok := st.CurrentRevision == st.UpdateRevision
 			why := ""
